@@ -262,7 +262,10 @@ def main(argv=None):
             print(f"VIOLATION property={prop} replay={path}")
             print("   cfg:", json.dumps(rec["cfg"]), "label:", rec["cex"].get("label"), "detail:", rec["cex"].get("detail"))
             print("   inputs:", json.dumps(rec["cex"].get("inputs"), default=str)[:600])
-            rl = [ln for ln in out.splitlines() if ln.startswith(("REPRODUCED", "NOT REPRODUCED"))]
+            import re as _re
+            rl = [ln for ln in _re.split(r"[\r\n]+", out) if ln.startswith(("REPRODUCED", "NOT REPRODUCED"))]
+            if not rl:
+                rl = [m.group(0) for m in _re.finditer(r"(?:NOT )?REPRODUCED:[^\r\n]*", out)]
             print("   replay:", rl[-1] if rl else (out.strip().splitlines()[-1] if out.strip() else ""))
         return 1
     return 0
